@@ -130,3 +130,115 @@ Proof. vm_compute. reflexivity. Qed.
 Example ex4_disjoint : disjoint [PField 2; PIndex 1] [PField 2; PIndex 2] /\ disjoint [PField 2; PIndex 1] [PField 3; PField 1].
 Proof. cbn. split; [right; split; [reflexivity|left; lia]|left; lia]. Qed.
 Example ex4_compat_rejects_wrong_type : set_compat [PField 2; PIndex 3] (VI64 0) ex4_v = false. Proof. vm_compute. reflexivity. Qed.
+
+(* ======================================================================================================
+   ALGORITHM level (model/ThriftEditBytes.v, proofs/ThriftEditBytesProofs.v): SetByPath / UnsetByPath as
+   thrift/generic/node.go performs them on BYTES — walk with the search functions of GetByPath, three-slice
+   splice (Node.replace), field header / key bytes of Path.ToRaw, the container's 4-byte count patched in place
+   (setNotFound: +1, deleteChild: -1) — refine the AST-level edits above, for all values, paths, sub-values.
+   Domain predicates (computable, model/ThriftEditBytes.v):
+     set_dom p v     a raw (binary) map key that gets INSERTED is the encoding of a key of the map's key type
+     unset_dom p v   p is not empty; a last step on a map is of the map's key kind (deleteChild compares the raw bytes
+                     of Path.ToRaw, which exist for steps of another kind too); a raw key is a key encoding
+     op_dom / history_dom   depth <= 1023 (SkipGo's limit) before every op, non-empty paths, the two above, and the
+                     API contract of insertions (set_compat) that keeps the states well-formed
+   ====================================================================================================== *)
+From DG Require Import ThriftEditBytes ThriftEditBytesProofs.
+
+(* the walk of SetByPath finds what the AST lookup finds: same type and span, insertion address of an absent last step *)
+Theorem C04_walk_refines : forall p v r off, wf v = true -> (depth v <= max_skip_depth)%nat ->
+  walk (type_of v) (encode v ++ r) off p = wlookup v off p.
+Proof. intros p v r off Hw Hd. apply walk_refines. split; assumption. Qed.
+Print Assumptions C04_walk_refines.
+
+(* SetByPath on the encoding = encoding of ast_set (front insertion, as the code does): same bytes, same 'exist' flag;
+   error exactly when the spec fails (absent inner step, wrong kind, wrong type of the existing element) *)
+Theorem C04_set_refines : forall p x v,
+  wf v = true -> (depth v <= max_skip_depth)%nat -> p <> [] -> set_dom p v = true ->
+  set_by_path (type_of v) (encode v) p (encode x) (type_of x) =
+  match ast_set true p x v with Some (v', ex) => Some (encode v', ex) | None => None end.
+Proof. exact set_refines. Qed.
+Print Assumptions C04_set_refines.
+
+(* UnsetByPath on the encoding: a removal yields the encoding of ast_unset's result; "nothing removed" is nil or the
+   not-found error; a spec error is an error or nil — and in these cases the buffer is returned as it was *)
+Theorem C04_unset_refines : forall p v,
+  wf v = true -> (depth v <= max_skip_depth)%nat -> unset_dom p v = true ->
+  match ast_unset p v with
+  | DOk v' true => unset_by_path (type_of v) (encode v) p = UbOk (encode v')
+  | DOk v' false => unset_by_path (type_of v) (encode v) p = UbOk (encode v) \/ unset_by_path (type_of v) (encode v) p = UbNotFound
+  | DErr => unset_by_path (type_of v) (encode v) p = UbErr (encode v) \/ unset_by_path (type_of v) (encode v) p = UbOk (encode v)
+  end.
+Proof. exact unset_refines. Qed.
+Print Assumptions C04_unset_refines.
+
+(* deleteChild alone: the victim's span (field header / key included) and the count patch, in any surrounding buffer *)
+Theorem C04_delete_child_refines : forall s c, wf c = true -> (depth c <= max_skip_depth)%nat -> unset_last_ok s c = true ->
+  match remove_at s c with
+  | DOk c' true => exists patch s0 e0, delete_child (type_of c) (encode c) s = DcFound patch s0 e0 /\
+        forall A B, replace (apply_patch (A ++ encode c ++ B) (zlen A) patch) (zlen A + s0) (zlen A + e0) [] = A ++ encode c' ++ B
+  | DOk _ false => delete_child (type_of c) (encode c) s = DcNotFound
+  | DErr => delete_child (type_of c) (encode c) s = DcErr None \/ delete_child (type_of c) (encode c) s = DcNone
+  end.
+Proof. intros s c Hw Hd. apply delete_child_spec. split; assumption. Qed.
+Print Assumptions C04_delete_child_refines.
+
+(* one step and whole histories: every intermediate BUFFER is the encoding of the model state *)
+Theorem C04_bytes_step_refines : forall v o, wf v = true -> op_dom v o = true ->
+  bytes_step (type_of v, encode v) o = (type_of (ast_step true v o), encode (ast_step true v o)).
+Proof. exact bytes_step_refines. Qed.
+Print Assumptions C04_bytes_step_refines.
+
+Theorem C04_history_refines : forall ops v, wf v = true -> history_ok true v ops = true -> history_dom v ops = true ->
+  bytes_states (type_of v, encode v) ops = map (fun s => (type_of s, encode s)) (ast_states true v ops) /\
+  fold_left bytes_step ops (type_of v, encode v) =
+    (type_of (fold_left (ast_step true) ops v), encode (fold_left (ast_step true) ops v)).
+Proof. exact history_refines. Qed.
+Print Assumptions C04_history_refines.
+
+Theorem C04_failed_op_bytes_unchanged : forall v, wf v = true -> (depth v <= max_skip_depth)%nat ->
+  (forall p x, p <> [] -> set_dom p v = true ->
+     (set_by_path (type_of v) (encode v) p (encode x) (type_of x) = None <-> ast_set true p x v = None)) /\
+  (forall p, unset_dom p v = true ->
+     (forall b, unset_by_path (type_of v) (encode v) p = UbErr b -> b = encode v /\ ast_unset p v = DErr) /\
+     (unset_by_path (type_of v) (encode v) p = UbNotFound -> ast_unset p v = DOk v false)) /\
+  (forall o, op_dom v o = true ->
+     match o with OSet p x => ast_set true p x v = None | OUnset p => ast_unset p v = DErr end ->
+     bytes_step (type_of v, encode v) o = (type_of v, encode v)).
+Proof. exact failed_op_bytes_unchanged. Qed.
+Print Assumptions C04_failed_op_bytes_unchanged.
+
+(* ---- non-vacuity at byte level ---- *)
+Example ex4_history_dom : history_dom ex4_v ex4_ops = true. Proof. vm_compute. reflexivity. Qed.
+Example ex4_bytes_final : fold_left bytes_step ex4_ops (type_of ex4_v, encode ex4_v) =
+  (T_STRUCT, encode (fold_left (ast_step true) ex4_ops ex4_v)).
+Proof. vm_compute. reflexivity. Qed.
+(* integer keys of every width (I08 above 127 and negative), a raw key, count carry 255 -> 256 and back *)
+Definition ex4b_v : tval :=
+  VStruct [ (1, VMap T_BYTE T_BOOL [(VByte (-56), VBool 1)]);
+            (2, VMap T_I64 T_STRING [(VI64 (-1), VString [])]);
+            (3, VList T_BYTE (repeat (VByte 7) 255));
+            (4, VMap T_STRING (T_LIST) []) ].
+Definition ex4b_ops : list eop :=
+  [ OSet [PField 1; PIntKey 200] (VBool 0);                 (* existing I08 key, read through an unsigned byte *)
+    OSet [PField 1; PIntKey 5] (VBool 1);                   (* inserted I08 key *)
+    OSet [PField 2; PIntKey (-2)] (VString [1; 2]);         (* negative I64 key *)
+    OSet [PField 2; PBinKey [0; 0; 0; 0; 0; 0; 0; 9]] (VString [3]);   (* raw key *)
+    OSet [PField 3; PIndex 255] (VByte 8);                  (* count 255 -> 256 *)
+    OUnset [PField 3; PIndex 17];                           (* count 256 -> 255, fixed-size elements *)
+    OSet [PField 4; PStrKey [107]] (VList T_I16 [VI16 1]);
+    OSet [PField 4; PStrKey [107]; PIndex 1] (VI16 2);      (* insertion two containers down *)
+    OUnset [PField 4; PStrKey [107]; PIndex 0];
+    OUnset [PField 2; PBinKey [255; 255; 255; 255; 255; 255; 255; 255]];
+    OUnset [PField 1; PIntKey 200] ].
+Example ex4b_ok : wf ex4b_v = true /\ history_ok true ex4b_v ex4b_ops = true /\ history_dom ex4b_v ex4b_ops = true.
+Proof. vm_compute. repeat split. Qed.
+Example ex4b_bytes_final : fold_left bytes_step ex4b_ops (type_of ex4b_v, encode ex4b_v) =
+  (T_STRUCT, encode (fold_left (ast_step true) ex4b_ops ex4b_v)).
+Proof. vm_compute. reflexivity. Qed.
+Example ex4b_final_value : fold_left (ast_step true) ex4b_ops ex4b_v =
+  VStruct [ (1, VMap T_BYTE T_BOOL [(VByte 5, VBool 1)]);
+            (2, VMap T_I64 T_STRING [(VI64 9, VString [3]); (VI64 (-2), VString [1; 2])]);
+            (3, VList T_BYTE (VByte 8 :: repeat (VByte 7) 254));
+            (4, VMap T_STRING T_LIST [(VString [107], VList T_I16 [VI16 1])]) ].
+Proof. vm_compute. reflexivity. Qed.
